@@ -244,7 +244,10 @@ def normalize(scn, raw):
     if scn.get("epoch") == 2:
         # keep what happened after the first run ended; the second accept is runner 1 of the epoch
         cut = next((i for i, e in enumerate(ev) if e["e"] == "accept.ret" and e.get("r") == 1), -1)
+        # (execute calls are numbered through the whole process: count from the epoch's first)
+        before = len([e for e in ev[:cut + 1] if e["e"] == "exec.call"])
         ev = [dict(e, r=1) if e["e"] in ("accept.call", "accept.ret") and e.get("r") == 2 else e for e in ev[cut + 1:] if e["e"] != "guard.release"]
+        ev = [dict(e, call=e["call"] - before) if "call" in e and e["e"] in ("exec.call", "exec.ret", "x.start", "x.end") else e for e in ev]
     c = consts_of(scn)
     svc = set(c["services"])
     # which runner a hook event belongs to: the latest accept.call on its thread before it
